@@ -35,8 +35,8 @@ Thresholds(s) ==
        \cup {Q(RMul(Half, RAdd(p, q))) : p \in P, q \in P}
        \cup {Q(RMul(Half, p)) : p \in P}
 
-VARIABLES wa, wb, wc, wd, h, done
-vars == <<wa, wb, wc, wd, h, done>>
+VARIABLES wa, wb, wc, wd, h, side, done
+vars == <<wa, wb, wc, wd, h, side, done>>
 
 \* wd: an optional second infoset of player two with many actions; probabilities such as 1/10 or 1/7 are
 \* not exact in binary floating point, so the stored infoset sums to one only up to rounding
@@ -48,6 +48,9 @@ Init == /\ wd \in {<<>>} \cup Wide
         /\ IF wd = <<>> THEN wa \in Reduced(2) /\ wb \in Reduced(3) /\ wc \in {<<1, 1>>, <<1, 0>>, <<1, 3>>}
                          ELSE wa = <<1, 1>> /\ wb \in {<<1, 1, 1>>, <<0, 1, 2>>} /\ wc = <<1, 3>>
         /\ h \in Thresholds(S)
+        \* which player owns what: "both" as described above; "swapped" the players exchanged; "two-only" /
+        \* "one-only": one player owns every infoset and the other has no decision with several actions
+        /\ side \in {"both", "swapped", "two-only", "one-only"}
         /\ done = FALSE
 
 Expected == [i \in 1..Len(S) |-> IF SomeExceeds(S[i], h) THEN [fixed |-> TRUE, v |-> TruncKeep(S[i], h)]
@@ -55,8 +58,18 @@ Expected == [i \in 1..Len(S) |-> IF SomeExceeds(S[i], h) THEN [fixed |-> TRUE, v
 
 Next == /\ ~done
         /\ done' = TRUE
-        /\ UNCHANGED <<wa, wb, wc, wd, h>>
-        /\ PrintT(<<"OUT", 0, ToJson([w |-> <<<<wa, wb>>, IF wd = <<>> THEN <<wc>> ELSE <<wc, wd>>>>, h |-> h, exp |-> Expected])>>)
+        /\ UNCHANGED <<wa, wb, wc, wd, h, side>>
+        /\ LET first == <<wa, wb>>
+               second == IF wd = <<>> THEN <<wc>> ELSE <<wc, wd>>
+               w == IF side = "both" THEN <<first, second>>
+                    ELSE IF side = "swapped" THEN <<second, first>>
+                    ELSE IF side = "two-only" THEN <<<<>>, first \o second>>
+                    ELSE <<first \o second, <<>>>>
+               \* the expected infosets in the order of w (player one's first)
+               e == IF side = "swapped"
+                    THEN [i \in 1..Len(S) |-> Expected[IF i <= Len(second) THEN 2 + i ELSE i - Len(second)]]
+                    ELSE Expected
+           IN PrintT(<<"OUT", 0, ToJson([w |-> w, h |-> h, exp |-> e])>>)
 
 Spec == Init /\ [][Next]_vars
 
